@@ -74,3 +74,66 @@ Proof.
       destruct (t =? 0); [split; [split; [discriminate | lia] | split; [discriminate | tauto]]|].
       destruct (aget t (d_jnl d1)); split; try (split; [discriminate | lia]); split; try discriminate; tauto.
 Qed.
+
+(** ** snapshots in the specification: a revert restores the map of snapshot time, whatever
+    journaled writes, reads, nested snapshots and reverts of nested snapshots happened in between *)
+Definition span_op (id : N) (o : op) : bool :=
+  match o with
+  | GetBal _ | GetNonce _ | GetCode _ | GetSt _ _ | Query _ _ | Version | DbDump
+  | SetBal _ _ | SetNonce _ _ | SetSt _ _ _ | SetCode _ _ | Snap => true
+  | Revert j => id <? j           (* only snapshots taken after [id] are reverted inside the span *)
+  | _ => false
+  end.
+
+Fixpoint spec_run (e : env) (s : spec) (ops : list op) (outs : list out) : spec :=
+  match ops, outs with
+  | o :: t, x :: t' => spec_run e (fst (spec_step e s o x)) t t'
+  | _, _ => s
+  end.
+
+Lemma alookup_filter_fst {A} (P : N -> bool) (l : list (N * A)) id :
+  alookup N.eqb id (filter (fun x => P (fst x)) l) = if P id then alookup N.eqb id l else None.
+Proof.
+  induction l as [|[x a] t IH]; simpl; [destruct (P id); reflexivity|].
+  destruct (P x) eqn:Ex; simpl.
+  - destruct (id =? x) eqn:E; [apply N.eqb_eq in E; subst; rewrite Ex; reflexivity | exact IH].
+  - destruct (id =? x) eqn:E; [| exact IH]. apply N.eqb_eq in E. subst x. rewrite Ex in *. exact IH.
+Qed.
+
+Lemma span_keeps_snapshot e id S0 : forall ops outs s,
+  forallb (span_op id) ops = true ->
+  alookup N.eqb id (sp_snaps s) = Some (S0, false) -> id < sp_next s ->
+  let s' := spec_run e s ops outs in
+  alookup N.eqb id (sp_snaps s') = Some (S0, false) /\ id < sp_next s'.
+Proof.
+  induction ops as [|o t IH]; intros outs s Hs Ha Hn; [split; assumption|].
+  destruct outs as [|x t']; [split; assumption|].
+  cbn [forallb] in Hs. apply andb_true_iff in Hs. destruct Hs as [Ho Ht].
+  cbn [spec_run]. apply IH; [exact Ht | |]; destruct o; try discriminate; cbn [spec_step fst sp_snaps sp_next sp_set_cur sp_touch sp_set_snaps];
+    try assumption.
+  - (* Snap: a fresh id *)
+    cbn [alookup]. destruct (id =? sp_next s) eqn:E; [apply N.eqb_eq in E; lia | exact Ha].
+  - (* Revert of a nested snapshot *)
+    simpl in Ho. apply N.ltb_lt in Ho.
+    destruct (alookup N.eqb id0 (sp_snaps s)) as [[sv tt]|]; cbn [fst sp_snaps sp_set_snaps sp_set_cur]; [| exact Ha].
+    rewrite (alookup_filter_fst (fun i => i <? id0)). destruct (id <? id0) eqn:E; [exact Ha | apply N.ltb_ge in E; lia].
+  - lia.
+  - simpl in Ho. destruct (alookup N.eqb id0 (sp_snaps s)) as [[sv tt]|]; cbn [fst sp_next sp_set_snaps sp_set_cur]; exact Hn.
+Qed.
+
+Theorem spec_revert_restores e s span outs x0 x1 :
+  forallb (span_op (sp_next s)) span = true ->
+  let s1 := fst (spec_step e s Snap x0) in
+  let s2 := spec_run e s1 span outs in
+  sp_cur (fst (spec_step e s2 (Revert (sp_next s)) x1)) = sp_cur s /\
+  snd (spec_step e s2 (Revert (sp_next s)) x1) = ERes R_ok /\
+  wf_op_b s2 (Revert (sp_next s)) = (if sp_pend s2 then false else true).
+Proof.
+  intro Hs. cbv zeta.
+  destruct (span_keeps_snapshot e (sp_next s) (sp_cur s) span outs (fst (spec_step e s Snap x0)) Hs) as [Ha Hn].
+  - cbn [spec_step fst sp_snaps sp_set_snaps alookup]. rewrite N.eqb_refl. reflexivity.
+  - cbn [spec_step fst sp_next sp_set_snaps]. lia.
+  - set (s2 := spec_run e (fst (spec_step e s Snap x0)) span outs) in *. clearbody s2.
+    cbn [spec_step]. rewrite Ha. cbn [fst snd sp_cur sp_set_snaps sp_set_cur]. split; [reflexivity|]. split; [reflexivity|].
+    unfold wf_op_b. rewrite Ha. destruct (sp_pend s2); reflexivity.
+Qed.
